@@ -124,6 +124,8 @@ impl GpuBackend {
     }
 
     fn node(&self) -> MutexGuard<'_, BackendInternal> {
+        #[cfg(feature = "verif-hooks")]
+        crate::verif::hold("gpu.lock", 0);
         self.node.lock().unwrap()
     }
 
